@@ -111,6 +111,14 @@ DIRECTED_PULL = [
            _a("PullOk", attempts=2, notif=1), _a("DelSub", "s1", 2, 1), _a("Tick", attempts=2),
            _a("Advance", attempts=2), _a("Tick", attempts=2, notif=1)])
     for cid in ("P6", "R6")]
+# a pull from an RTSP origin with every output on (C16): a subscriber attached before the origin's description is handed the
+# probes, one that joins afterwards waits for a key frame (Trace_Lifecycle ObsOk); the pull ends, the outputs are finalised
+DIRECTED_F3 = [
+    ("F3", [_a("StartPull", attempts=1), _a("NewSub", "s1", 1, 1), _a("PullOk", attempts=1, notif=1), _a("ProbePull", attempts=1),
+            _a("ProbePull", attempts=1), _a("PullEnd", attempts=1, notif=1), _a("DelSub", "s1", 1, 1)]),
+    ("F3", [_a("StartPull", attempts=1), _a("PullOk", attempts=1, notif=1), _a("NewSub", "s1", 1, 1), _a("ProbePull", attempts=1),
+            _a("ProbePull", attempts=1), _a("StopPull", attempts=1, notif=1), _a("DelSub", "s1", 1, 1)]),
+]
 HLS_SETS = {("h1",): "Hls1", ("h1", "h2"): "Hls2"}      # defined in spec/Lifecycle.tla
 
 
